@@ -127,6 +127,24 @@ pub fn is_parametrize_decorator(expr: &Expr) -> bool {
     is_pytest_mark_decorator(expr, "parametrize")
 }
 
+/// Checks if an expression is a pytest.mark.parametrize decorator whose argument names can be
+/// fixtures: a call with an `indirect=` keyword other than the constant `False`.
+pub fn is_indirect_parametrize_decorator(expr: &Expr) -> bool {
+    let Expr::Call(call) = expr else {
+        return false;
+    };
+    if !is_parametrize_decorator(&call.func) {
+        return false;
+    }
+    call.keywords.iter().any(|kw| {
+        kw.arg.as_ref().is_some_and(|a| a.as_str() == "indirect")
+            && !matches!(
+                &kw.value,
+                Expr::Constant(c) if matches!(c.value, rustpython_parser::ast::Constant::Bool(false))
+            )
+    })
+}
+
 /// Extracts fixture names from @pytest.mark.parametrize when indirect=True.
 pub fn extract_parametrize_indirect_fixtures(
     expr: &Expr,
